@@ -4,11 +4,18 @@ package c20
 //
 // Every op runs in its own block(s) (BeginBlock … EndBlock/Commit).  EVM state is built
 // through signed Ethereum txs (DeliverTx), FunTokens through signed Cosmos txs, the other
-// custom modules through their real message servers on the deliver-state context.  Two things
-// have no message in the pinned tree and are driven at keeper level: oracle reward
-// allocations (Keeper.AllocateRewards is the only producer of Rewards entries) and dev-gas
-// fee-share registrations (the message needs a stored wasm contract; Keeper.SetFeeShare is
-// what it ends with).
+// custom modules through their real message servers on the deliver-state context.  One thing
+// has no message in the pinned tree and is driven at keeper level: oracle reward
+// allocations (Keeper.AllocateRewards is the only producer of Rewards entries).
+//
+// x/devgas (round 6): the fee-share registry is only ever written by the three registry
+// messages, so it is built by HISTORIES of those messages on real wasm contracts (reflect.wasm,
+// instantiated by the users with no admin / themselves / another user / the gov module / another
+// contract as admin): MsgRegisterFeeShare, MsgUpdateFeeShare (to a third account, back to the
+// deployer, to the contract, to the current value, to malformed / empty / upper-case strings),
+// MsgCancelFeeShare and MsgUpdateParams in every order, as signed transactions (ante + ValidateBasic)
+// or through the message router (what a contract-dispatched message takes).  Every such op is
+// logged (c20_devgas_test.go) and replayed by the handler model of coq/C20/Model.v.
 
 import (
 	"encoding/hex"
@@ -37,7 +44,6 @@ import (
 	"github.com/NibiruChain/nibiru/v2/eth"
 	"github.com/NibiruChain/nibiru/v2/x/common/asset"
 	"github.com/NibiruChain/nibiru/v2/x/common/testutil"
-	devgastypes "github.com/NibiruChain/nibiru/v2/x/devgas/v1/types"
 	epochstypes "github.com/NibiruChain/nibiru/v2/x/epochs/types"
 	"github.com/NibiruChain/nibiru/v2/x/evm"
 	"github.com/NibiruChain/nibiru/v2/x/evm/embeds"
@@ -57,6 +63,7 @@ type c20Op struct {
 	A     int      `json:"a"`
 	B     int      `json:"b"`
 	C     int      `json:"c"`
+	D     int      `json:"d,omitempty"` // devgas ops: 0 = signed transaction (when the sender has a key), 1 = message router
 	Slots [][2]int `json:"slots,omitempty"`
 }
 
@@ -119,6 +126,8 @@ type c20World struct {
 	prevotes map[int]c20Prevote
 	failed   int // ops the implementation rejected (harmless; reported for the histogram)
 	nCoin    int
+	dg       c20Devgas // wasm contracts + the log of x/devgas message-handler calls
+	userKeys []*secp256k1.PrivKey
 }
 
 var c20Price = big.NewInt(1_000_000_000_000)
@@ -176,7 +185,9 @@ func newC20World(t *testing.T, emptyWhitelist bool) *c20World {
 	}
 	w.must(c.Fund(w.caddr, coins))
 	for i := 0; i < 5; i++ {
-		u := sdk.AccAddress(secp256k1.GenPrivKeyFromSecret([]byte(fmt.Sprintf("c20-user-%d", i))).PubKey().Address())
+		uk := secp256k1.GenPrivKeyFromSecret([]byte(fmt.Sprintf("c20-user-%d", i)))
+		u := sdk.AccAddress(uk.PubKey().Address())
+		w.userKeys = append(w.userKeys, uk)
 		w.users = append(w.users, u)
 		w.must(c.Fund(u, Unibi(1e12)))
 	}
@@ -195,6 +206,7 @@ func newC20World(t *testing.T, emptyWhitelist bool) *c20World {
 		w.must(err)
 		w.vals = append(w.vals, sdk.ValAddress(op))
 	}
+	w.dg.params0 = c.App.DevGasKeeper.GetParams(c.Ctx())
 	c.EndBlock()
 	return w
 }
@@ -436,14 +448,8 @@ func (w *c20World) apply(op c20Op) {
 			_, err := inflationkeeper.NewMsgServerImpl(c.App.InflationKeeper).EditInflationParams(ctx, &inflationtypes.MsgEditInflationParams{Sender: w.root, EpochsPerPeriod: &epp, MaxPeriod: &mp})
 			w.note(err)
 		})
-	case "fs_set": // fee share: contract user A, deployer user B, withdrawer user C
-		w.block(5*time.Second, func(ctx sdk.Context) {
-			c.App.DevGasKeeper.SetFeeShare(ctx, devgastypes.FeeShare{ContractAddress: w.user(op.A).String(), DeployerAddress: w.user(op.B).String(), WithdrawerAddress: w.user(op.C).String()})
-		})
-	case "fs_del":
-		w.block(5*time.Second, func(ctx sdk.Context) {
-			w.note(c.App.DevGasKeeper.DevGasStore.Delete(ctx, w.user(op.A).String()))
-		})
+	case "wasm_new", "wasm_admin", "fs_reg", "fs_upd", "fs_cancel", "dg_params", "fs_set", "fs_del":
+		w.applyDevgas(op)
 	case "or_delegate": // validator A delegates its feeder rights to user B
 		w.block(5*time.Second, func(ctx sdk.Context) {
 			v := w.vals[abs(op.A)%len(w.vals)]
